@@ -3,6 +3,7 @@
 // case.  Every case runs under catch_unwind; a panic is the outcome `PANIC`.
 mod codec;
 mod eff;
+mod eng;
 mod rm;
 
 use std::io::{BufRead, BufWriter, Write};
@@ -13,6 +14,9 @@ fn run_case(toks: &[&str]) -> String {
         Some("eff") => eff::run_eff(toks),
         Some("effnew") => eff::run_effnew(toks),
         Some("rm") => rm::run_rm(toks),
+        Some("eng") => eng::run_eng(toks, false),
+        Some("engc") => eng::run_eng(toks, true),
+        Some("twin") => eng::run_twin(toks),
         _ => "?unknown-case".to_string(),
     }
 }
